@@ -212,7 +212,10 @@ def check_history(secs, exps, le, asz, rng):
                 dw.get_DIE_from_refaddr(e['offset']).get_parent()
         except Exception as ex:
             return 'history %r: query raised %r' % (log, ex)
-    after = snapshot(dw)
+    try:
+        after = snapshot(dw)
+    except Exception as ex:
+        return 'after history %r the sequential read raises %r; a fresh object reads every unit' % (log[-6:], ex)
     if after != fresh:
         for (a, b) in zip(after, fresh):
             if a != b:
